@@ -403,6 +403,19 @@ public:
                 }
                 w.afterStep();
             }
+            // what was left over from an interrupted negotiation must not act on a later connection: no stanza is
+            // transmitted twice on one connection (a retransmission after a loss happens on the *next* connection, once)
+            {
+                QMap<QPair<int, QByteArray>, int> seen;
+                for (const auto &it : std::as_const(w.server->received)) {
+                    if (it.isStanza && !it.id.isEmpty()) {
+                        if (++seen[qMakePair(it.conn, it.raw)] == 2) {
+                            w.violation(QStringLiteral("inconsistent_after_loss"), QStringLiteral("C10:stanza_transmitted_twice_on_one_connection"),
+                                        QStringLiteral("connection %1 carried this stanza twice: %2").arg(it.conn).arg(QString::fromUtf8(it.raw.left(160))));
+                        }
+                    }
+                }
+            }
             // end of run: log out and destroy; every request ever issued has completed exactly once
             w.client->disconnectFromServer();
             w.pump(nullptr);
